@@ -680,8 +680,10 @@ def iterator_reuse(ctx: Ctx):
                 for ch in ast.iter_child_nodes(x):
                     parents[id(ch)] = x
             consumers = [x for x in loads if not (isinstance(parents.get(id(x)), ast.Call) and (dotted_name(parents[id(x)].func) or '') == 'next')]
-            in_loop = any(isinstance(p, (ast.For, ast.While)) and any(c is l for c in ast.walk(p) for l in consumers[:1]) and not any(s is st for s in ast.walk(p))
-                          for p in walk_local_nodes(fn.node))
+            def _in_body(p, node):
+                return any(c is node for b in (p.body + p.orelse) for c in ast.walk(b))
+            in_loop = any(isinstance(p, (ast.For, ast.While)) and _in_body(p, consumers[0]) and not any(s is st for s in ast.walk(p))
+                          for p in walk_local_nodes(fn.node)) if consumers else False
             if len(consumers) >= 2 or (len(consumers) == 1 and in_loop):
                 n += 1
                 yield ctx.ob('SWEEP.ITERATOR-REUSE', False, fn, consumers[-1], f'one-shot iterator `{name}` consumed once',
